@@ -479,3 +479,88 @@ class SimQueueModule(object):
     Queue = SimQueue
     Empty = _q.Empty
     Full = _q.Full
+
+
+class _SimSemaphore(object):
+    """threading.Semaphore / BoundedSemaphore / Lock whose blocking goes through the scheduler (a real one would block the
+    thread that holds the baton and with it the whole simulation)"""
+    _count = [0]
+
+    def __init__(self, sched, value=1, bound=None):
+        self.sched = sched
+        self.value = value
+        self.bound = bound
+        _SimSemaphore._count[0] += 1
+        self.sid = _SimSemaphore._count[0]
+
+    def acquire(self, blocking=True, timeout=None):
+        if not self.sched.in_task():
+            if self.value > 0:
+                self.value -= 1
+                return True
+            raise RuntimeError('blocking acquire outside the simulation')
+        self.sched.yield_point('sem-acquire', self.sid)
+        if self.value <= 0:
+            if not blocking or (timeout is not None and timeout <= 0):
+                return False
+            if timeout is not None:
+                deadline = self.sched.clock.now + timeout
+                while self.value <= 0:
+                    if self.sched.clock.now >= deadline:
+                        return False
+                    self.sched.sleep(min(0.05, max(deadline - self.sched.clock.now, 1e-6)))
+            else:
+                self.sched.wait_until(lambda: self.value > 0, 'sem-wait', self.sid)
+        self.value -= 1
+        return True
+
+    def release(self, n=1):
+        if self.bound is not None and self.value + n > self.bound:
+            raise ValueError('Semaphore released too many times')
+        self.value += n
+        if self.sched.in_task():
+            self.sched.yield_point('sem-release', self.sid)
+
+    def locked(self):
+        return self.value <= 0
+
+    __enter__ = acquire
+
+    def __exit__(self, *exc):
+        self.release()
+
+
+class SimThreadingModule(object):
+    """stands in for the `threading` module object inside one module of the code under test: semaphores and plain locks
+    created through it block through the scheduler, everything else is the real thing"""
+
+    def __init__(self, sched):
+        self._sched = sched
+
+    def Semaphore(self, value=1):
+        return _SimSemaphore(self._sched, value)
+
+    def BoundedSemaphore(self, value=1):
+        return _SimSemaphore(self._sched, value, bound=value)
+
+    def Lock(self):
+        return _SimSemaphore(self._sched, 1, bound=1)
+
+    def __getattr__(self, name):
+        import threading
+        return getattr(threading, name)
+
+
+def simulate_module_primitives(world, module):
+    """semaphores and locks that a module of the code under test created at import time (module globals) are replaced by
+    scheduler-aware ones for the duration of the World; the module's `threading` name becomes a SimThreadingModule"""
+    import threading
+    sched = world.sched
+    for name, obj in list(vars(module).items()):
+        if isinstance(obj, threading.Semaphore):      # BoundedSemaphore is a subclass
+            bound = getattr(obj, '_initial_value', None)
+            world.extra_patches.append((module, name, _SimSemaphore(sched, obj._value, bound=bound)))
+        elif isinstance(obj, type(threading.Lock())):
+            world.extra_patches.append((module, name, _SimSemaphore(sched, 0 if obj.locked() else 1, bound=1)))
+    if isinstance(vars(module).get('threading'), type(threading)):
+        world.extra_patches.append((module, 'threading', SimThreadingModule(sched)))
